@@ -68,13 +68,18 @@ def run(rep, prog, tier):
         x0 = next((k.value for k in c.keywords if k.arg == 'X0'), c.args[3] if len(c.args) > 3 else None)
         ok = x0 is None or (isinstance(x0, ast.Name) and x0.id == 'x0')
         rep.ob('R11.rest', 'lsim', ok, 'lsim(sys, u, t) without initial state' if x0 is None else f'initial state passed: {ast.unparse(x0)}', g.site)
-    m2 = prog.mod(SR.CS); cls = m2.defs.get('TransientSolution')
-    mem = prog.find_member(m2, cls, '__post_init__')
-    solver_calls = [n for n in ast.walk(mem[1]) if isinstance(n, ast.Call) and ast.unparse(n.func) == 'self.solver']
-    if not solver_calls:
-        rep.ob('R11.rest', 'TransientSolution:x0', None, 'self.solver(...) call not found', prog.site(m2, mem[1]))
+    from .c12 import solver_call_args
+    m2, sc, site2 = solver_call_args(prog)
+    if sc is None:
+        rep.ob('R11.rest', 'TransientSolution:x0', None, 'self.solver(...) call not found in what __post_init__ stores', site2)
     else:
-        c = solver_calls[0]
-        x0 = c.args[3] if len(c.args) > 3 else next((k.value for k in c.keywords if k.arg == 'x0'), None)
-        ok = x0 is not None and isinstance(x0, ast.Call) and ast.unparse(x0.func).endswith('zeros')
-        rep.ob('R11.rest', 'TransientSolution:x0', ok, f'initial state argument = {ast.unparse(x0) if x0 is not None else None}', prog.site(m2, c))
+        x0 = sc.get('x0')
+        ok = x0 is not None and _head(x0) == 'zeros'
+        rep.ob('R11.rest', 'TransientSolution:x0', ok, 'initial state handed to the solver = zeros(...)' if ok else f'initial state = {x0!r:.100}', site2)
+
+
+def _head(k):
+    from ..terms import Poly
+    if isinstance(k, tuple) and len(k) > 1 and k[0] == 'opq' and isinstance(k[1], str) and k[1].startswith('np.'): return k[1][3:]
+    try: return Poly(dict(k[1:])).as_atom()[0]
+    except Exception: return None
